@@ -432,7 +432,23 @@ pub fn gen_element(rng: &mut Rng, cfg: &GenCfg, depth: usize) -> GTree {
             seen.push(n);
             // xml:id values are kept normalised and unique (the parser normalises them and
             // rejects duplicates, so other values are outside the round-trip domain)
-            let value = if n == 1 { format!("i{:x}", rng.next() >> 24) } else { gen_text(rng, cfg, false) };
+            // (white space other than U+0020 at the ends or inside is NOT touched by xml:id
+            // normalisation and must survive the round trip: seed C01h)
+            let value = if n == 1 {
+                let id = format!("i{:x}", rng.next() >> 24);
+                if rng.chance(1, 5) {
+                    let odd = *rng.pick(&["\t", "\n", "\u{a0}", "\u{2003}", "\u{85}", "\u{3000}"]);
+                    match rng.below(3) {
+                        0 => format!("{}{}", odd, id),
+                        1 => format!("{}{}", id, odd),
+                        _ => format!("{}{}x", id, odd),
+                    }
+                } else {
+                    id
+                }
+            } else {
+                gen_text(rng, cfg, false)
+            };
             kids.push(GTree::leaf(GValue::Attribute(n, value)));
         }
     }
